@@ -98,6 +98,10 @@ impl CleanMarkerStore {
         #[cfg(feature = "verif")]
         crate::wal::verif::io_event("rename", path, 0, 0);
         fs::rename(&tmp_path, path)?;
+        // Make the rename itself durable, as create_new_file does for new WAL files
+        if let Some(dir) = std::path::Path::new(path).parent() {
+            fs::File::open(dir)?.sync_all()?;
+        }
         Ok(())
     }
 }
